@@ -266,6 +266,14 @@ Section Walk.
           else if is "tick" then
             if busy ps GRun then ret (SA "busy", s, ps) else
             ret (launch i GRun [MLabel LTick; MLabel LUpdLock; MLabel (LUpdDone obs [])] KBest (SA "blocked") s ps)
+          else if is "status" || is "count" then
+            (* Status() / ConnectionsNumber(): a critical section on p.mu without blocking operation *)
+            if match writer s with Some _ => true | None => false end || existsb wants_lock ps
+            then ret (SA "blocked", s, ps)
+            else ret (SL [SA nm; sx_nat nconns], s, ps)
+          else if is "info" then
+            (* BestMasterchainInfoClient(): reads bestConn under RLock; never nil *)
+            ret (SA "done", s, ps)
           else if is "state" then
             let locked := match writer s with Some _ => true | None => false end || existsb wants_lock ps in
             ret (SL [sx_nat (List.length (updq s));
@@ -433,6 +441,13 @@ Definition run_wait2 (a : sx) : sx :=
    the four-number shape is the two-caller scenario above *)
 Definition run_wait (a : sx) : sx :=
   match a with
+  | SL [SN tg; SN h0; SN hs; SN arr; SN tmo; SN dl] =>
+      (* WaitMasterchainSeqno(ctx with deadline dl, tgt, timeout tmo) (times in ms): a head hs of the
+         best connection arrives at time arr.  The wait ends at min(timeout, deadline): the timer
+         (LLeave RTimeout) or the context (LLeave RCancel, here 'deadline), whichever is first *)
+      if (tg <=? h0)%N then SA "nil"
+      else if (tg <=? hs)%N && (arr <? N.min tmo dl)%N then SA "nil"
+      else if (tmo <=? dl)%N then SA "timeout" else SA "deadline"
   | SL [SN _; SN _; SN _; SL _] => run_wait2 a
   | SL [SN tg; SN h0; SL hs; SB cancel; SA _] =>
       wait_batch_scenario BestPing 2 (fun _ => tg)
